@@ -35,6 +35,7 @@ type vDB struct {
 	sched    int
 	autoSched bool // run a pending flush at solver/fork-chosen sync points inside client calls
 	cycles   int
+	checkLeaks bool // close() also requires that nothing under the directory stays open (C19)
 	gate     chan struct{} // native runs of gated harnesses: one token lets the stalled flusher write one table
 }
 
@@ -232,6 +233,9 @@ func (h *vDB) close() {
 	h.call(func() { err = h.db.Close() })
 	vrt.Assert(err == nil, "db/close-no-error")
 	vrt.Assert(h.pending == nil, "db/close-waits-for-the-flusher")
+	if h.checkLeaks {
+		vrt.Assert(h.fs.OpenCount() == 0, "db/close-leaves-no-descriptor-or-mapping-open")
+	}
 }
 
 func (h *vDB) tables() int { return len(h.db.sstableManager.allSSTableReaders) }
